@@ -176,21 +176,34 @@ def rule_name1(A: Analysis, rep):
     by_fn = {}
     for f, c in sites:
         by_fn.setdefault(f.fq.replace("conductor.", ""), []).append(c)
-    want = {"cli.archive.create_archive": 1, "cli.restore.main": 2, "task_types.run.RunExperiment.get_output_path": 1, "task_types.base.TaskType.__init__": 1}
-    rep.check({k: len(v) for k, v in by_fn.items()} == want, "NAME1", "users of task_output_dir", None, "%s" % want,
-              "task_output_dir is used at %s (confirmed: %s)" % ({k: len(v) for k, v in by_fn.items()}, want))
-    for c in by_fn.get("cli.archive.create_archive", []):
-        p = c._parent
-        rep.check(isinstance(p, ast.Call) and norm(p) == "pathlib.Path(task_id.path, f.task_output_dir(task_id, version))", "NAME1", "archive member path", c,
-                  "", "archive member path is `%s`" % norm(p)[:90])
-    for c in by_fn.get("cli.restore.main", []):
-        p = c._parent
-        tx = norm(p) if isinstance(p, ast.Call) else ""
-        ok = tx in ("pathlib.Path(staging_path, task_id.path, f.task_output_dir(task_id, version))", "pathlib.Path(ctx.output_path, task_id.path, f.task_output_dir(task_id, version))")
-        rep.check(ok, "NAME1", "restore path", c, "", "restore path is `%s`" % tx[:100])
+    want_fns = {"cli.archive.create_archive", "cli.restore.main", "task_types.run.RunExperiment.get_output_path", "task_types.base.TaskType.__init__"}
+    rep.check(set(by_fn) == want_fns, "NAME1", "users of task_output_dir", None, "%s" % sorted(want_fns),
+              "task_output_dir is used in %s (confirmed: %s)" % (sorted(by_fn), sorted(want_fns)))
+    # every path to a version directory is built as Path(<root>, task_id.path, task_output_dir(task_id, version))
+    def version_paths(fq):
+        fi_ = A.fn(fq)
+        out = []
+        for c in walk_local(fi_.node):
+            if isinstance(c, ast.Call) and norm(c.func) in ("pathlib.Path", "Path") and len(c.args) >= 2:
+                tx = [A.xtext(a, fi_, stop=["task_id", "version", "staging_path", "ctx"]) for a in c.args]
+                if any("task_output_dir(" in t for t in tx):
+                    out.append((c, tx))
+        return out
+    ap = version_paths("cli.archive.create_archive")
+    rep.check(len(ap) == 1 and ap[0][1] == ["task_id.path", "f.task_output_dir(task_id, version)"], "NAME1", "archive member path", ap[0][0] if ap else None,
+              "", "archive member paths are %s" % [t for _c, t in ap])
+    rp = version_paths("cli.restore.main")
+    want_r = sorted([["staging_path", "task_id.path", "f.task_output_dir(task_id, version)"], ["ctx.output_path", "task_id.path", "f.task_output_dir(task_id, version)"]])
+    rep.check(sorted(t for _c, t in rp) == want_r, "NAME1", "restore paths (staging source and project destination)", rp[0][0] if rp else None, "", "restore builds %s" % sorted(t for _c, t in rp))
     ca = A.fn("cli.archive.create_archive")
     comp = [x for x in walk_local(ca.node) if isinstance(x, ast.ListComp)]
     ok = len(comp) == 1 and len(comp[0].generators) == 1 and norm(comp[0].generators[0].iter) == "%s.get_all_versions()" % ca.params[1] and not comp[0].generators[0].ifs
+    if not comp:
+        # explicit loop form: for ... in archive_index.get_all_versions(): <list>.append(...) unconditionally
+        loops = [l for l in walk_local(ca.node) if isinstance(l, ast.For) and norm(l.iter) == "%s.get_all_versions()" % ca.params[1]]
+        if len(loops) == 1 and not any(isinstance(x, (ast.If, ast.Break, ast.Continue, ast.Try)) for x in walk_local(loops[0])):
+            apps = [x for x in loops[0].body if isinstance(x, ast.Expr) and isinstance(x.value, ast.Call) and isinstance(x.value.func, ast.Attribute) and x.value.func.attr == "append"]
+            ok = len(apps) == 1
     rep.check(ok, "NAME1", "archive packs every row of the archive index", ca.node, "", "the tar member list is not built from every version in the archive index")
     pops = [c for c in walk_local(ca.node) if isinstance(c, ast.Call) and norm(c.func) == "subprocess.Popen"]
     ok = False
@@ -201,7 +214,7 @@ def rule_name1(A: Analysis, rep):
     rep.check(ok, "NAME1", "tar packs the index and the directories relative to cond-out", ca.node, "", "the tar command line changed")
     ok = any(isinstance(i, ast.If) and norm(i.test) == "process.returncode != 0" and any(isinstance(x, ast.Raise) for x in i.body) for i in walk_local(ca.node))
     rep.check(ok, "NAME1", "tar failure is an error", ca.node, "", "a failing tar is not reported")
-    rep.expect_min("NAME1", 7)
+    rep.expect_min("NAME1", 6)
 
 
 def rule_ar1(A: Analysis, rep):
@@ -267,7 +280,9 @@ def rule_ar1(A: Analysis, rep):
     if vis is not None:
         body = [norm(s) for s in vis.node.body]
         t = vis.params[0]
-        ok = body == ["if not %s.archivable:\n    return" % t, "relevant_tasks.append(%s.identifier)" % t]
+        gv = A.cfg(vis, "plain")
+        apps = [n for n in gv.nodes if n.kind == "stmt" and norm(n.ast) == "relevant_tasks.append(%s.identifier)" % t]
+        ok = len(apps) == 1 and A.path_guards(gv, gv.entry, apps[0], vis) == [frozenset({("t(%s.archivable)" % t, True)})]
     tr = [c for c in walk_local(ct.node) if isinstance(c, ast.Call) and A.res.is_call_to(c, "TaskType.traverse")]
     ok = ok and len(tr) == 1 and norm(tr[0].args[1]) == "append_if_archivable" and any(
         isinstance(c, ast.Call) and A.res.is_call_to(c, "TaskIndex.load_transitive_closure") for c in walk_local(ct.node))
